@@ -26,6 +26,7 @@ from liquid2.builtin import parse_string_or_identifier
 from liquid2.builtin import quote_identifier
 from liquid2.builtin import parse_string_or_path
 from liquid2.exceptions import LiquidSyntaxError
+from liquid2.exceptions import LiquidTypeError
 from liquid2.exceptions import TemplateNotFoundError
 from liquid2.stringify import to_liquid_string
 
@@ -33,6 +34,14 @@ if TYPE_CHECKING:
     from liquid2 import RenderContext
     from liquid2 import TokenT
     from liquid2.builtin import KeywordArgument
+
+
+def _length(val: Sequence[object], token: TokenT) -> int:
+    try:
+        return len(val)
+    except OverflowError as err:
+        # A range with more items than `len()` can count.
+        raise LiquidTypeError("the sequence is too large to loop over", token=token) from err
 
 
 @contextmanager
@@ -111,7 +120,7 @@ class IncludeNode(Node):
                 key = self.alias or template.name.split(".")[0]
 
                 if isinstance(val, Sequence) and not isinstance(val, str):
-                    with context.loop_iterations(len(val)):
+                    with context.loop_iterations(_length(val, self.token)):
                         for itm in val:
                             namespace[key] = itm
                             character_count += template.render_with_context(
@@ -156,7 +165,7 @@ class IncludeNode(Node):
                 key = self.alias or template.name.split(".")[0]
 
                 if isinstance(val, Sequence) and not isinstance(val, str):
-                    with context.loop_iterations(len(val)):
+                    with context.loop_iterations(_length(val, self.token)):
                         for itm in val:
                             namespace[key] = itm
                             character_count += (
